@@ -205,8 +205,13 @@ func init() {
 		if err != nil {
 			panic(skipErr{"bad hex"})
 		}
-		delete(e.bm, a[0])
 		y := roaring.New()
+		if hasTok(a[3:], "reuse") {
+			if old, ok := e.bm[a[0]]; ok {
+				y = old // a previously used receiver
+			}
+		}
+		delete(e.bm, a[0])
 		n, _, derr := decodeInto(e, y, a[1], data, optInt(a[3:], "chunk", 0))
 		if derr != nil {
 			return "err"
